@@ -480,6 +480,29 @@ impl<'a> VisitMut for HofPass<'a> {
                 }
             }
         }
+        // E.map_err(|p| B)  (not followed by `?`)  ==>  match E { Ok(v) => Ok(v), Err(e) => { let p = e; Err(B) } }
+        if let Expr::MethodCall(mc) = e {
+            if mc.method == "map_err" && mc.args.len() == 1 {
+                if let Expr::Closure(cl) = &mc.args[0] {
+                    if cl.inputs.len() == 1 {
+                        let recv = &mc.receiver;
+                        let pat = &cl.inputs[0];
+                        let body = &cl.body;
+                        self.counter += 1;
+                        let v = quote::format_ident!("__fjx_v{}", self.counter);
+                        let er = quote::format_ident!("__fjx_e{}", self.counter);
+                        let new: Expr = parse_quote! {
+                            match (#recv) {
+                                Ok(#v) => Ok(#v),
+                                Err(#er) => { let #pat = #er; Err(#body) }
+                            }
+                        };
+                        *e = new;
+                        self.log.push("R-HOF map_err(closure) beta-reduced".into());
+                    }
+                }
+            }
+        }
         // R-TRY: the language-defined desugaring of `?` (Verus knows nothing about the converted error otherwise)
         if let Expr::Try(t) = e {
             if self.closure_depth > 0 {
@@ -567,6 +590,127 @@ impl<'a> VisitMut for MacPass<'a> {
         }
         visit_mut::visit_expr_mut(self, e);
     }
+}
+
+// ------------------------------------------------------------------ R-SCOPE
+
+struct ReturnDrop<'a> {
+    guards: &'a [proc_macro2::Ident],
+    n: usize,
+}
+impl<'a> VisitMut for ReturnDrop<'a> {
+    fn visit_expr_closure_mut(&mut self, _c: &mut syn::ExprClosure) {}
+    fn visit_expr_mut(&mut self, e: &mut Expr) {
+        visit_mut::visit_expr_mut(self, e);
+        if let Expr::Return(r) = e {
+            let gs: Vec<&proc_macro2::Ident> = self.guards.iter().rev().collect();
+            let new: Expr = match &r.expr {
+                Some(inner) => parse_quote! { { let __fjx_r = #inner; #(drop(#gs);)* return __fjx_r; } },
+                None => parse_quote! { { #(drop(#gs);)* return; } },
+            };
+            *e = new;
+            self.n += 1;
+        }
+    }
+}
+
+/// rule R-SCOPE: the scope-end drop of a lock guard bound by a top-level `let` is made explicit at every exit
+/// that the guard is still alive at (Rust drops locals at `return` and at the end of the block, in reverse order)
+fn scope_pass(block: &mut syn::Block, patterns: &[String], log: &mut Vec<String>) {
+    if patterns.is_empty() {
+        return;
+    }
+    // (decl index, ident)
+    let mut guards: Vec<(usize, proc_macro2::Ident)> = vec![];
+    for (i, st) in block.stmts.iter().enumerate() {
+        if let Stmt::Local(l) = st {
+            let id = match &l.pat {
+                syn::Pat::Ident(pi) => Some(pi.ident.clone()),
+                syn::Pat::Type(pt) => match &*pt.pat {
+                    syn::Pat::Ident(pi) => Some(pi.ident.clone()),
+                    _ => None,
+                },
+                _ => None,
+            };
+            if let (Some(id), Some(init)) = (id, &l.init) {
+                let s = tok(&init.expr);
+                if patterns.iter().any(|p| s.contains(p.as_str())) {
+                    guards.push((i, id));
+                }
+            }
+        }
+    }
+    if guards.is_empty() {
+        return;
+    }
+    let n = block.stmts.len();
+    // release index per guard: first later top-level statement that drops or moves it
+    let mut release: Vec<Option<usize>> = vec![];
+    for (di, id) in &guards {
+        let name = id.to_string();
+        let mut rel = None;
+        for j in (di + 1)..n {
+            let s = tok(&block.stmts[j]);
+            let moved = s.contains(&format!("drop({name})"))
+                || s.contains(&format!("({name},"))
+                || s.contains(&format!(",{name},"))
+                || s.contains(&format!(",{name})"))
+                || s.contains(&format!("({name})"));
+            if moved {
+                rel = Some(j);
+                break;
+            }
+        }
+        release.push(rel);
+    }
+    let mut total = 0;
+    for j in 0..n {
+        let alive: Vec<proc_macro2::Ident> = guards
+            .iter()
+            .zip(release.iter())
+            .filter(|((di, _), rel)| j > *di && rel.map(|r| j < r).unwrap_or(true))
+            .map(|((_, id), _)| id.clone())
+            .collect();
+        // the declaring statement itself: `let g = x.lock()?;` returns before the guard exists -> nothing to drop
+        if alive.is_empty() {
+            continue;
+        }
+        let mut rd = ReturnDrop { guards: &alive, n: 0 };
+        rd.visit_stmt_mut(&mut block.stmts[j]);
+        total += rd.n;
+    }
+    // end of block
+    let at_end: Vec<proc_macro2::Ident> =
+        guards.iter().zip(release.iter()).filter(|(_, rel)| rel.is_none()).map(|((_, id), _)| id.clone()).rev().collect();
+    if !at_end.is_empty() {
+        let last = block.stmts.pop();
+        match last {
+            Some(Stmt::Expr(e, None)) if !matches!(e, Expr::Return(_)) && !tok(&e).starts_with("{let__fjx_r") => {
+                block.stmts.push(parse_quote! { let __fjx_r = #e; });
+                for g in &at_end {
+                    block.stmts.push(parse_quote! { drop(#g); });
+                }
+                block.stmts.push(Stmt::Expr(parse_quote! { __fjx_r }, None));
+                total += 1;
+            }
+            Some(other) => {
+                let is_ret = matches!(&other, Stmt::Expr(e, _) if tok(e).starts_with("{let__fjx_r") || matches!(e, Expr::Return(_)));
+                block.stmts.push(other);
+                if !is_ret {
+                    for g in &at_end {
+                        block.stmts.push(parse_quote! { drop(#g); });
+                    }
+                    total += 1;
+                }
+            }
+            None => {}
+        }
+    }
+    log.push(format!(
+        "R-SCOPE implicit scope-end drop of guard(s) {} made explicit at {} exit(s)",
+        guards.iter().map(|(_, i)| i.to_string()).collect::<Vec<_>>().join(","),
+        total
+    ));
 }
 
 // ------------------------------------------------------------------ R-PATH
@@ -876,6 +1020,7 @@ struct Unit {
     world_pats: Vec<String>,
     broadcast: String,
     macros: Vec<(String, String, TokenStream)>,
+    guards: Vec<String>,
     files: BTreeMap<String, (String, syn::File)>,
     out: String,
     report: Vec<String>,
@@ -1093,6 +1238,8 @@ impl Unit {
             _ => false,
         };
         HofPass { log: &mut log, counter: 0, ret_is_option, closure_depth: 0 }.visit_block_mut(&mut block);
+        // R-SCOPE (after R-TRY so that every exit is an explicit `return`)
+        scope_pass(&mut block, &self.guards, &mut log);
         // R-ITER: `p: impl Iterator<Item = &'a T>` -> `p: &'a [T]`, `for x in p` -> `for x in p.iter()`
         for pname in &spec.iter_params {
             self.check_iter_call_sites(&spec.name);
@@ -1744,6 +1891,9 @@ impl Unit {
                         }
                         self.register_macro(parts[0].trim(), parts[1].trim());
                     }
+                    "guards" => {
+                        self.guards.extend(rest.split_whitespace().map(|s| s.to_string()));
+                    }
                     "broadcast" => {
                         self.broadcast = rest.to_string();
                     }
@@ -1938,6 +2088,7 @@ fn main() {
         world_pats: vec![],
         broadcast: String::new(),
         macros: vec![],
+        guards: vec![],
         files: BTreeMap::new(),
         out: String::new(),
         report: vec![],
